@@ -9,6 +9,8 @@ import Driver.LT
 import Driver.SU
 import Driver.MG
 import Driver.CN
+import Driver.RC
+import Driver.CC
 /-!
 Line-protocol driver: one operation per input line, one observation per output line:
 `<model observation>\t<spec observation>`.  First token selects the component.
@@ -27,6 +29,8 @@ structure All where
   su : SU.St := {}
   mg : MG.St := {}
   cn : CN.St := {}
+  rc : RC.St := {}
+  cc : CC.St := {}
 
 def stepAll (s : All) (line : String) : All × String :=
   match (line.trimAscii.toString.splitOn " ").filter (· ≠ "") with
@@ -63,6 +67,12 @@ def stepAll (s : All) (line : String) : All × String :=
   | "cn" :: args =>
       let (c, a, b) := CN.step s.cn args
       ({ s with cn := c }, a ++ "\t" ++ b)
+  | "rc" :: args =>
+      let (c, a, b) := RC.step s.rc args
+      ({ s with rc := c }, a ++ "\t" ++ b)
+  | "cc" :: args =>
+      let (c, a, b) := CC.step s.cc args
+      ({ s with cc := c }, a ++ "\t" ++ b)
   | [] => (s, "")
   | _ => (s, "bad-component\tbad-component")
 
